@@ -71,7 +71,7 @@ def run(ctx):
         p = progs[i % len(progs)]
         kind = MUTS[i % len(MUTS)]
         mut = {"kind": kind, "at": rnd.randrange(1001), "arg": rnd.choice(CLASSES),
-               "n": rnd.choice([1, 5, 50, 99, 100, 101, 150, 300]) if kind == "nest" else rnd.choice([10, 511, 512, 513, 1500]) if kind == "longregex" else rnd.randrange(64)}
+               "n": rnd.choice([1, 5, 50, 94, 95, 96, 97, 98, 99, 100, 101, 102, 130, 300]) if kind == "nest" else rnd.choice([10, 511, 512, 513, 1500]) if kind == "longregex" else rnd.randrange(64)}
         cases.append({"seed": p["seed"] * 16 + i % 16, "prog": p["prog"], "mut": mut})
     recs = [x for x in vlib.run_harness(ctx, binary, cases=cases, timeout=2400) if "n" in x]
     if len(recs) != len(cases):
